@@ -64,9 +64,68 @@ def hist_key(h):
     return "|".join(parts)
 
 
+def replay_one(c, binp):
+    """bin/check C17 --replay FILE: re-run one stored counterexample and show spec vs real per step."""
+    obj = json.load(open(c.replay))
+    rp = obj.get("replay") or {}
+    if "h" not in rp:
+        print("replay file has no behaviour (trace-level finding: see its 'replay' field):", json.dumps(rp)[:2000])
+        return
+    inp = os.path.join(c.work, "one_in.ndjson")
+    outp = os.path.join(c.work, "one_out.ndjson")
+    write_ndjson(inp, [{"ev": "meta", "q": rp["q"], "unit": rp["unit"], "somul": rp["somul"]}, {"h": rp["h"]}])
+    rc, so = c.sh([binp, "replay", inp, outp])
+    res = json.loads(open(outp).read().splitlines()[0])
+    for k, st in enumerate(rp["h"]):
+        print("step %d frame %s\n   spec: %s\n   real: %s" % (k, json.dumps(st["f"]), json.dumps(st["o"]), json.dumps(res["real"][k])))
+    for pv in res["pv"]:
+        c.violation(pv["key"], pv["what"], rp)
+    c.cov["replayed"] = c.cov["evaluations"] = 1
+    c.cov["distinct_nontrivial"] = 2
+    c.sample(rp["h"])
+
+
+def binding_selftest(c, binp):
+    """S6: a recorded trace is accepted; corrupting one logged field or dropping one event makes TLC reject it."""
+    ev = os.path.join(c.work, "self.ndjson")
+    rc, so = c.sh([binp, "record", ev, os.path.join(c.work, "self.json")], env={"VERIF_Q": 2, "VERIF_RUNS": 4})
+    lines = [json.loads(l) for l in open(ev)]
+    # an accepted middle frame of a packet that is later emitted from its slot (so the event matters)
+    idx = []
+    for i, e in enumerate(lines):
+        if e.get("ev") == "recv" and e["out"]["kind"] == "none" and e["fi"] >= 0 and e["nf"] > 2:
+            for e2 in lines[i + 1:]:
+                if e2.get("ev") == "reset":
+                    break
+                if e2.get("ev") == "recv" and e2["so"] == e["so"] and e2["out"]["kind"] == "emit":
+                    idx.append(i)
+                    break
+    if rc != 0 or not idx:
+        c.fail_tool("binding self-test: could not record a usable trace")
+    i = idx[len(idx) // 2]
+    variants = {"orig": lines}
+    cor = [dict(e) for e in lines]
+    cor[i] = dict(cor[i], out={"kind": "err", "class": "duplicate"})
+    variants["corrupt-field"] = cor
+    variants["drop-event"] = lines[:i] + lines[i + 1:]
+    for name, ls in variants.items():
+        pth = os.path.join(c.work, "self_%s.ndjson" % name)
+        write_ndjson(pth, ls)
+        r = c.tlc(SD, "Trace_Reassembly", mode="trace", env={"TRACE": pth}, timeout=600, expect_violation=True)
+        accepted = r.ok and not r.postcondition_failed and not r.violated
+        if name == "orig" and not accepted:
+            c.fail_tool("binding self-test: unmodified trace rejected")
+        if name != "orig" and accepted:
+            c.fail_tool("binding self-test: trace variant '%s' was accepted - the trace spec does not constrain the code" % name)
+    c.cov["binding_selftest"] = "orig accepted; corrupt-field and drop-event rejected"
+
+
 def run(c):
     thorough = c.tier == "thorough"
     binp = c.cargo_build("vh-edgetun")
+    if c.replay:
+        return replay_one(c, binp)
+    binding_selftest(c, binp)
     c.assumptions += [
         "1 model unit = 128 bytes in replay (MINPAY = 2 units = MIN_PAYLOAD_SIZE); MAX_PACKET_SIZE / MAX_FRAMES branches are bound by trace validation with the real constants, not by replay",
         "stale bytes are made visible by per-frame tag bytes (replay) / random payloads compared with every delivered frame of the packet (record)",
